@@ -4,8 +4,9 @@
 (* sketches with production-size inputs (thousands of values over hundreds *)
 (* of bins, generators of the repository's tests, all mappings and store   *)
 (* kinds) recorded by the Go driver: every Add/AddWithCount/Merge/Clear/   *)
-(* Reweight, and quantile queries at EVERY k/(n-1) and both float64        *)
-(* neighbours.  A query line carries floor and ceil of the exact rank      *)
+(* Reweight/Copy and merge through the wire (Encode + DecodeAndMergeWith), *)
+(* and quantile queries at EVERY k/(n-1), at both sides of every bin       *)
+(* boundary, and both float64 neighbours.  A query line carries floor and ceil of the exact rank      *)
 (* q*(W-1) (computed with math/big from the float q actually passed and    *)
 (* the count the sketch reports) and `near`: the tokens of that sketch's   *)
 (* input that the returned value is an alpha-accurate estimate of (a       *)
